@@ -248,6 +248,10 @@ pub fn iso3_from_basis(basis: &[SVector<f64, 3>; 3], origin: &Point<f64, 3>) -> 
 ///
 /// returns: Isometry<f64, Unit<Quaternion<f64>>, 3>
 ///
+/// # Panics
+///
+/// Panics if `y` is parallel to `x0` (including `y == -x0`): no y-axis is defined in that case.
+///
 /// # Examples
 ///
 /// ```
@@ -255,7 +259,8 @@ pub fn iso3_from_basis(basis: &[SVector<f64, 3>; 3], origin: &Point<f64, 3>) -> 
 /// ```
 pub fn iso3_from_xyo(x0: &UnitVec3, y: &UnitVec3, origin: &Point<f64, 3>) -> Iso3 {
     // Project y onto x and then normalize to ensure it is a unit vector and orthogonal
-    let y0 = Unit::new_normalize(y.into_inner() - x0.into_inner() * x0.dot(y));
+    let y0 = Unit::try_new(y.into_inner() - x0.into_inner() * x0.dot(y), 1e-10)
+        .expect("iso3_from_xyo: `y` is parallel to `x0`, the y-axis is undefined");
 
     let z0 = x0.cross(&y0).normalize();
 
